@@ -70,14 +70,26 @@ def ll_login(w, sc):
             s.panic = e
             return s
     ver = byop["ver_new"][0]
+    if not ver.ok:
+        s.err_stage = "ver_new:" + ver.status + ":" + str(ver.f)[:200]
+        return s
     s.user_acc = ver.b("user")
     s.v = ver.b("v")
     s.salt = ver.b("salt")
     s.salt_draw = ver.rng
     if sc.get("reimport"):
         db = byop["ver_db"][0]
-        s.reimport_ok = (db.ok and db.b("user") == s.user_acc and db.b("v") == s.v and db.b("salt") == s.salt)
+        if not db.ok:
+            # the exported record is not accepted back by the constructor (e.g. the exported name is not a valid credential)
+            s.reimport_ok = False
+            s.err_stage = "reimport: exported record refused by from_database_values / NormalizedString: %s (exported username %r)" % (
+                db.f.get("msg", db.status), s.user_acc)
+            return s
+        s.reimport_ok = (db.b("user") == s.user_acc and db.b("v") == s.v and db.b("salt") == s.salt)
     pr = byop["ver_proof"][0]
+    if not pr.ok:
+        s.err_stage = "ver_proof:" + pr.status + ":" + str(pr.f)[:200]
+        return s
     s.B = pr.b("B")
     s.b_draw = pr.rng
     if pr.b("salt") != s.salt:
